@@ -12,6 +12,17 @@ mod stdlib;
 pub mod tree;
 mod typecheck;
 
+/// Verification hooks: re-exports of internal compilation phases.
+#[cfg(oxlip_verif)]
+pub mod verif {
+    pub use crate::inference::tag::{FuncTag, Seq, Tag, TagId};
+    pub use crate::inference::unify::InferenceSet;
+    pub use crate::inference::union::{reduce, UnionFind};
+    pub use crate::inference::{constrain, substitute, tag};
+    pub use crate::resolve::{resolve, Graph};
+    pub use crate::typecheck::{cycles_check, type_check};
+}
+
 #[cfg(test)]
 mod compile_tests;
 #[cfg(test)]
